@@ -115,6 +115,21 @@ func (f *Fam) genBegin(r *rand.Rand, s *Snapshot) string {
 	if f.height == 0 {
 		now = 1000 * sec
 	}
+	// a block whose time is one nanosecond before, exactly at, or one nanosecond after the end of a running jail term,
+	// with an unjail request for that validator in it
+	f.gen.unjailNow = -1
+	if r.Intn(5) == 0 {
+		for _, a := range sortedAddrs(mapKeys(s.Vals)) {
+			v, si := s.Vals[a], s.Sign[a]
+			if v.Jailed && v.Status != 0 && !si.Tomb && si.JailedUntil > f.now+1 {
+				now = si.JailedUntil + pick(r, -1, -1, 0, 1)
+				if ki, ok := keyByAddr[a]; ok {
+					f.gen.unjailNow = ki
+				}
+				break
+			}
+		}
+	}
 	signers := map[string]int64{}
 	if int(h-1) < len(f.tmHist) && h-1 >= 1 {
 		signers = f.tmHist[h-1]
@@ -210,6 +225,11 @@ func (f *Fam) genTx1(r *rand.Rand, s *Snapshot) string {
 		mode = "check"
 	case 1:
 		mode = "simulate"
+	}
+	if f.gen.unjailNow >= 0 && r.Intn(2) == 0 { // the unjail request this block's time was chosen for
+		ki := f.gen.unjailNow
+		req := f.requiredFee("unjail").Int64()
+		return fmt.Sprintf("tx deliver k=unjail signer=%d pk=1 fee=%d memo=0 ent=%d mut=none addr=%s", ki, req, r.Int63n(1<<40), hx(Keys[ki].Addr))
 	}
 	ki := r.Intn(NKeys)
 	// bias the acting key towards one whose state makes the message meaningful
@@ -365,7 +385,7 @@ func (f *Fam) genTx1(r *rand.Rand, s *Snapshot) string {
 	}
 	mut := "none"
 	if r.Intn(16) == 0 {
-		mut = []string{"sig", "fee", "memo", "ent", "emptysig", "trunc", "garbage", "msswap", "msdrop", "memosp", "memopre", "msg", "chain"}[r.Intn(13)]
+		mut = []string{"sig", "fee", "memo", "ent", "emptysig", "trunc", "garbage", "msswap", "msdrop", "memosp", "memopre", "msg", "chain", "nilint"}[r.Intn(14)]
 		if mut == "msg" && mode == "simulate" {
 			mut = "memosp" // a simulation checks no signature: a changed message would simply be another message
 		}
@@ -434,4 +454,12 @@ func govOwner(s *Snapshot, acl, dao *string) {
 	var o sdk.Address
 	govTypes.ModuleCdc.UnmarshalJSON([]byte(s.Params["gov/daoOwner"]), &o)
 	*dao = hx(o)
+}
+
+func mapKeys(m map[string]ValRec) map[string]int64 {
+	r := map[string]int64{}
+	for k := range m {
+		r[k] = 0
+	}
+	return r
 }
